@@ -227,7 +227,7 @@ prop(
     stages=[dict(name="c18", pkg="c18", test="TestC18", access=[], timeout_quick=300, timeout_thorough=3000)],
     rule="real raterun.Runner with 1-3 schedules (distinct frequencies 2-9ms, start delays 0-30ms), function durations 0-12ms, 0-2 Restarts at random instants, ending by Stop (75%) or by cancelling the context; "
          "in a third of the runs one invocation is held by the harness and Stop is called while it executes; the totally ordered event log (Start, FnStart k, FnEnd, Restart, StopCalled, StopReturned, Cancel) must be admissible "
-         "for the extracted checker runner_trace_ok; harness-side: Stop must not return while the held invocation runs, goroutine-leak check after Stop/cancel, one-sided bound invocations <= elapsed/frequency + 2; "
+         "for the extracted checker runner_trace_ok; harness-side: Stop must not return while the held invocation runs, goroutine-leak check after Stop/cancel, one-sided bound invocations <= elapsed/frequency + 2; extracted checker runner_times_ok: an invocation carrying schedule k's frequency never happens before Start + start delays up to k + one period of k (40% of the runs put a slow schedule behind a fast one with a function that overruns the fast ticks); "
          "non-trivial = run with a Restart or a held invocation; distinct = distinct logs",
     assumptions=["Go timers/tickers never fire early (one-sided timing only)", "select picks any ready case; channel/close semantics as modelled",
                  "premise of the model: the first schedule's StartDelay is shorter than the 1h placeholder ticker",
